@@ -320,6 +320,19 @@ def cases(tier):
                        dict(n=len(vals), positive=positive, with_bounds=True, dimcoord=(dt == 'int16'), data_pos=1,
                             pd=pd, d2s=d2s, depth_mode=(dt, vals), via='function'),
                        patches=depthcommon.patches, max_paths=50)
+    # many levels: a slim majority decides the guessed sign (6 of 11, 51 of 100); more than 128 layers are reordered whole
+    slim = tuple([-5.0, -4.0, -3.0, -2.0, -1.0] + [1.0, 2.0, 3.0, 4.0, 5.0, 6.0])
+    for vals in (slim, tuple(-float(v) for v in slim), tuple(float(v) for v in range(-49, 52) if v != 0)):
+        for (pd, d2s) in ((True, True), (False, False), (True, None), (None, True)):
+            yield Case(f'guess-many:{len(vals)}:{vals[0]}:pd{pd}:d2s{d2s}', body,
+                       dict(n=len(vals), positive=None, with_bounds=False, dimcoord=False, data_pos=1, pd=pd, d2s=d2s, depth_mode=vals, via='function'),
+                       patches=depthcommon.patches, max_paths=50)
+    for n in (129, 200):
+        for positive, (pd, d2s) in (('down', (True, True)), ('up', (True, False)), ('down', (None, True))):
+            yield Case(f'many-layers:{n}:{positive}:pd{pd}:d2s{d2s}', body,
+                       dict(n=n, positive=positive, with_bounds=True, dimcoord=(n == 200), data_pos=2, pd=pd, d2s=d2s,
+                            depth_mode=('float64', tuple(float(k) * 0.5 + 0.25 for k in range(n))), via='function'),
+                       patches=depthcommon.patches, max_paths=50)
     # positive attribute missing: the sign is guessed from the values (concrete depth values, symbolic data)
     for vals in ((0.5, 1.5, 2.5), (-0.5, -1.5, -2.5), (4.0, 2.0, 0.5), (-4.0, -2.0), (-20.0, -10.0, -5.0, -1.0, 1000.0), (30.0, 20.0, 5.0, -500.0)) if q else \
             ((0.5, 1.5, 2.5), (-0.5, -1.5, -2.5), (4.0, 2.0, 0.5), (-4.0, -2.0), (-3.0, -2.0, -1.0, -0.25), (9.0, 5.0)):
